@@ -17,7 +17,7 @@ func init() {
 		Level: "exploration",
 		Rule: "streams built by the independent reference multiplexer from random models (1..8 PIDs: PAT, PMT PIDs announced by it, DVB SI PIDs, PES PIDs; bounded and unbounded PES; " +
 			"PSI units of 1..n sections over 1..6+ packets; pointer_field 0..n; adaptation stuffing in any packet; trailing 0xFF or exact fit; random interleaving; PMT units that start before and end after the PAT announcing them) demultiplexed with NextData (seekable and read-only readers; a quarter of the runs after an initial Rewind or in the 188+k framing); " +
-			"plus sparse PIDs silent for up to 262 200 packets of other PIDs (stage endurance), an interior section header at every offset 1..183 before the end of a packet payload (header-straddle), a PMT complete before its PAT delivered at end of stream (pmt-before-pat); plus enumeration of every first-chunk and last-chunk size (thorough: every pair) of selected units; distinct = hash of the stream bytes; non-trivial = ≥2 units delivered on ≥2 PIDs or a multi-packet unit",
+			"plus sparse PIDs silent for up to 262 200 packets of other PIDs (stage endurance), an interior section header at every offset 1..183 before the end of a packet payload (header-straddle), one to three PMTs complete before the PAT that announces them, delivered at end of stream (pmt-before-pat); plus enumeration of every first-chunk and last-chunk size (thorough: every pair) of selected units; distinct = hash of the stream bytes; non-trivial = ≥2 units delivered on ≥2 PIDs or a multi-packet unit",
 		Assumptions: []string{"units are packet aligned and start with payload_unit_start; on PAT/PMT PIDs an interior section boundary never coincides with a packet boundary (ISO 13818-1 requires payload_unit_start for a section start)",
 			"the PAT unit announcing a PMT PID is complete before the final packet of that PID's first unit (stage straddle: before the first packet elsewhere)", "table contents are simple and carry the unit id (field fidelity is C13's subject)",
 			"discontinuity_indicator is never set (C06 covers it)"},
@@ -503,10 +503,24 @@ func runC02(c *mon.Ctx) {
 			continue
 		}
 		r := c.Rng("pmt-before-pat", i)
-		pmt := gen.NewPSIUnit(r, 0x1000, 1, []*astits.PSISection{gen.SimpleSection(r, refts.KindPMT, 1, r.IntN(300))}, r.IntN(3), false)
-		pmt.PlanChunks(gen.RandomChunks(r, len(pmt.Payload), 0, 0, true))
-		pmt.TailPad = r.IntN(2) == 0
+		// one to three programs whose maps are all complete before the one PAT that announces them
+		npm := 1 + int(i)%3
+		per := map[uint16][]*gen.Unit{}
 		pat := gen.PATFor(r, 0x1000)
+		pat.Sections[0].Syntax.Data.PAT.Programs = nil
+		var pmtOrder []uint16
+		for q := 0; q < npm; q++ {
+			pid := uint16(0x1000 + q)
+			pmt := gen.NewPSIUnit(r, pid, 1+q, []*astits.PSISection{gen.SimpleSection(r, refts.KindPMT, 1+q, r.IntN(300))}, r.IntN(3), false)
+			pmt.PlanChunks(gen.RandomChunks(r, len(pmt.Payload), 0, 0, true))
+			pmt.TailPad = r.IntN(2) == 0
+			per[pid] = []*gen.Unit{pmt}
+			pmtOrder = append(pmtOrder, repeatPID(pid, len(pmt.Plan))...)
+			pat.Sections[0].Syntax.Data.PAT.Programs = append(pat.Sections[0].Syntax.Data.PAT.Programs, &astits.PATProgram{ProgramNumber: uint16(1 + q), ProgramMapID: pid})
+		}
+		pat = gen.NewPSIUnit(r, 0, 0, pat.Sections, 0, false)
+		pat.PlanChunks([]int{len(pat.Payload)})
+		pat.TailPad = true
 		var pes []*gen.Unit
 		for k := 0; k < 2+r.IntN(4); k++ {
 			u := gen.NewPESUnit(r, 0x100, k, gen.PESOpts{DataLen: 20 + r.IntN(500), Unbounded: k%2 == 0, WithPTS: true})
@@ -516,11 +530,12 @@ func runC02(c *mon.Ctx) {
 		np := gen.NumPackets(pes)
 		before := r.IntN(np + 1)
 		between := r.IntN(np - before + 1)
-		order := append(repeatPID(0x100, before), repeatPID(0x1000, len(pmt.Plan))...)
+		order := append(repeatPID(0x100, before), pmtOrder...)
 		order = append(order, repeatPID(0x100, between)...)
 		order = append(order, repeatPID(0, len(pat.Plan))...)
 		order = append(order, repeatPID(0x100, np-before-between)...)
-		s := gen.Mux(map[uint16][]*gen.Unit{0: {pat}, 0x1000: {pmt}, 0x100: pes}, order, nil)
+		per[0], per[0x100] = []*gen.Unit{pat}, pes
+		s := gen.Mux(per, order, nil)
 		run := RunDemux(s.Bytes, baseCfg("data"))
 		checkStreamDelivery(c, "C02", "pmt-before-pat", i, s, nil, run, false)
 		c.Count("program_maps_complete_before_their_pat_delivered_at_end_of_stream")
